@@ -12,6 +12,13 @@ NVs == {5, 8, 12}                             \* number of sampled volumes of th
 SystemsOrNone == {"none", "triclinic", "monoclinic", "orthorhombic", "tetragonal7", "tetragonal6", "trigonal7", "trigonal6", "hexagonal", "cubic"}
 TMins == {"0", "0.5", "1", "300"}             \* (strings: the values are used by the harness, not by TLC arithmetic)
 DTs == {"0.5", "5", "100", "500"}
+\* secondary settings (every combination with every configuration below is valid; the harness draws them per configuration
+\* instead of TLC multiplying the enumeration by 27): number of temperatures, order of the QHA equation-of-state fit,
+\* volume-range expansion ratio
+NTs == {1, 2, 6}
+QOrders == {3, 4, 5}
+VRatios == {"1.05", "1.2", "1.45"}
+ASSUME PrintT(<<"AUX", NTs, QOrders, VRatios>>)
 VARIABLES cfg
 Configs == [interp : Methods, order : 1..11, nv : NVs, system : SystemsOrNone, tmin : TMins, dt : DTs, lattice : BOOLEAN]
 ValidCfg(c) == Adm(c.interp, c.order, c.nv)
